@@ -656,7 +656,14 @@ pub async fn handle_changes(
             let agent = agent.clone();
             let bookie = bookie.clone();
             let keys = seen_keys(&changes);
+            // verification hook: an injected failure is decided when the batch is spawned
+            #[cfg(corro_verif)]
+            let verif_fail = crate::agent::util::verif_take_failure();
             join_set.spawn(async move {
+                #[cfg(corro_verif)]
+                if let Some(e) = verif_fail {
+                    return (keys, Err(e));
+                }
                 (
                     keys,
                     process_multiple_changes(agent, bookie, changes.clone(), tx_timeout).await,
@@ -711,7 +718,13 @@ pub async fn handle_changes(
                     let agent = agent.clone();
                     let bookie = bookie.clone();
                     let keys = seen_keys(&changes);
+                    #[cfg(corro_verif)]
+                    let verif_fail = crate::agent::util::verif_take_failure();
                     join_set.spawn(async move {
+                        #[cfg(corro_verif)]
+                        if let Some(e) = verif_fail {
+                            return (keys, Err(e));
+                        }
                         (keys, process_multiple_changes(agent, bookie, changes.clone(), tx_timeout).await)
                     });
                     counter!("corro.agent.changes.batch.spawned").increment(1);
